@@ -41,9 +41,12 @@ LEVEL_TEXT = ("Props/C01.v composes the component theorems for instance input: a
               "procedure. Every kernel on the path is re-translated from the AST each run; evaluate() is compared with the model on enumerated "
               "and random inputs for all input types, matching metrics, thresholds, decision metrics and backends.")
 LEVEL_NOTE = ("Coq: C01_end_to_end is a single end-to-end theorem for unmatched instance input, threshold matcher, IoU/Dice lists, decision metric "
-              "(layer L2, crops as identity, proved harmless by GenEq_Crop + C07_crop_invariant); semantic input (C05: instances = connected "
-              "components), ASSD values (C07), RVD, merge matcher (C14) are connected through their own theorems and by correspondence, not "
-              "assembled into that one statement (partial). Trusted: Coq kernel, translator, extraction+driver, harness.")
+              "(layer L2, crops as identity, proved harmless by GenEq_Crop + C07_crop_invariant). Semantic input: semantic_pipeline = connected "
+              "components (C05) then the instance pipeline, inside the model (C01_semantic_pipeline_is_composition), and its result does not depend "
+              "on how a backend numbers the components when the matching is determined (C01_semantic_result_independent_of_component_numbering, "
+              "from C05 uniqueness + C09 renaming invariance); this path is also run in the engine and compared with evaluate(). ASSD values (C07), "
+              "RVD, merge matcher (C14) are connected through their own theorems and by correspondence, not assembled into the one statement "
+              "(partial). Trusted: Coq kernel, translator, extraction+driver, harness.")
 TECHNIQUE = "machine-checked proof in Rocq (Coq) (composition of component theorems) + AST re-translation + end-to-end model/implementation correspondence"
 
 
